@@ -51,4 +51,39 @@ theorem inv_unalign (b : Bag) : Inv (unalign b) := inv_addAllIgnore _ _ (inv_new
 /-- the result is a plain sequence set: nothing to be rectangular -/
 theorem rect_unalign (b : Bag) : Rect (unalign b) := Rect.of_not_align (isAlign_unalign b)
 
+/-! ### `SetAlphabet`: only the alphabet field can change -/
+
+theorem setAlphabet_cases (a : Int) (b : Bag) :
+    (setAlphabet a b).1 = b ∨ (setAlphabet a b).1 = { b with alphabet := NUCLEOTIDS } ∨
+    (setAlphabet a b).1 = { b with alphabet := AMINOACIDS } := by
+  unfold setAlphabet setAlphabetResult
+  split
+  · rename_i x hx
+    split at hx
+    · cases hx
+    · split at hx
+      · split at hx
+        · simp only [Option.some.injEq] at hx; subst hx; exact Or.inr (Or.inl rfl)
+        · cases hx
+      · split at hx
+        · split at hx
+          · simp only [Option.some.injEq] at hx; subst hx; exact Or.inr (Or.inr rfl)
+          · cases hx
+        · cases hx
+  · exact Or.inl rfl
+
+theorem setAlphabet_fields (a : Int) (b : Bag) :
+    (setAlphabet a b).1.rows = b.rows ∧ (setAlphabet a b).1.index = b.index ∧ (setAlphabet a b).1.next = b.next ∧
+    (setAlphabet a b).1.isAlign = b.isAlign ∧ (setAlphabet a b).1.length = b.length ∧
+    (setAlphabet a b).1.policy = b.policy := by
+  rcases setAlphabet_cases a b with e | e | e <;> rw [e] <;> exact ⟨rfl, rfl, rfl, rfl, rfl, rfl⟩
+
+theorem inv_setAlphabet (a : Int) (b : Bag) (h : Inv b) : Inv (setAlphabet a b).1 := by
+  obtain ⟨f1, f2, f3, -⟩ := setAlphabet_fields a b
+  exact h.congr f1 f2 f3
+
+theorem rect_setAlphabet (a : Int) {b : Bag} (h : Rect b) : Rect (setAlphabet a b).1 := by
+  obtain ⟨f1, -, -, f4, f5, -⟩ := setAlphabet_fields a b
+  exact h.congr f4 f5 (by rw [f1])
+
 end Gv.Proofs.BagAbs
